@@ -40,6 +40,7 @@ func init() {
 	slices["wire-counter"] = func(c *Ctx) { sliceWire(c, "counter") }
 	slices["wire-map"] = func(c *Ctx) { sliceWire(c, "map") }
 	slices["wire-list"] = func(c *Ctx) { sliceWire(c, "list") }
+	slices["wire-doc"] = func(c *Ctx) { sliceWire(c, "doc") }
 }
 
 type wenv struct {
@@ -197,6 +198,16 @@ func (w *wworld) newDt(wc *wclient, key string, mode int) *wdt {
 			r.li = wc.cl.SubscribeOrCreateList(key, hs)
 		}
 		d = r.li
+	case "doc":
+		switch mode {
+		case 0:
+			r.doc = wc.cl.CreateDocument(key, hs)
+		case 1:
+			r.doc = wc.cl.SubscribeDocument(key, hs)
+		default:
+			r.doc = wc.cl.SubscribeOrCreateDocument(key, hs)
+		}
+		d = r.doc
 	}
 	r.dt = d.(iface.Datatype)
 	r.cuid = r.dt.GetCUID()
@@ -338,6 +349,9 @@ func (w *wworld) dbDigest() dbView {
 		kindAt[fmt.Sprintf("%d|%v", bnum(bget(d, "colNum")), bget(d, "key"))] = strings.ToLower(bget(d, "type").(string))
 	}
 	var snaps, real []string
+	if w.kind == "doc" {
+		w.snapOff = true // the marshalled form of a Document snapshot is not modelled: the replay oracle judges it
+	}
 	for _, sn := range dump["-_-Snapshots"] {
 		du := bget(sn, "duid").(string)
 		if kindOf[du] != w.kind {
@@ -473,7 +487,17 @@ func (w *wworld) checkSnapshots() {
 			raw = b.Data
 		}
 		_, wantSnap, _ := want.GetMetaAndSnapshot()
-		if !jsonEq(raw, wantSnap) {
+		if di.kind == model.TypeOfDatatype_DOCUMENT {
+			// the node table of a Document snapshot is written in Go's map order: compare what the snapshot restores to
+			cl := orda.NewClient(orda.NewLocalClientConfig("oracle"), "oracle2")
+			got := cl.CreateDatatype(di.key, di.kind, nil).(iface.Datatype)
+			meta, _ := bget(sn, "meta").(string)
+			if err := got.SetMetaAndSnapshot([]byte(meta), raw); err != nil {
+				w.c.Violate("C11", "snapshot-not-restorable", fmt.Sprintf("snapshot %s (key %q) cannot be restored: %v", id, di.key, err), w.desc)
+			} else if a, b := jsonStr(got.GetSnapshot().ToJSON()), jsonStr(want.GetSnapshot().ToJSON()); a != b {
+				w.c.Violate("C11", "snapshot-differs-from-replay", fmt.Sprintf("snapshot %s (key %q) restores to %s but replaying operations 1..%d gives %s", id, di.key, a, v, b), w.desc)
+			}
+		} else if !jsonEq(raw, wantSnap) {
 			w.c.Violate("C11", "snapshot-differs-from-replay", fmt.Sprintf("snapshot %s (key %q) is %s but replaying operations 1..%d gives %s", id, di.key, raw, v, wantSnap), w.desc)
 		}
 		w.c.Count("snapshot-compared")
@@ -833,6 +857,26 @@ func (w *wworld) sync(x *wdt, fault int) {
 	// C18: one publish iff at least one operation was stored
 	stored := strings.Count(logPrefix(after), "\nO|") - strings.Count(logPrefix(before), "\nO|") // operations within the recorded logs
 	if !isErr {
+		// C18: a notification carries the pushing client, the datatype and the NEW end of the log
+		for _, pb := range pubs {
+			var nt struct {
+				CUID string
+				DUID string
+				Sseq uint64 `json:"sseq"`
+			}
+			_ = json.Unmarshal(pb.Payload, &nt)
+			for _, d := range after.dts {
+				if bget(d, "_id") == nt.DUID {
+					ss, _ := bget(d, "sseq").(bson.D)
+					if end := bnum(bget(ss, "end")); fault != 1 && nt.Sseq != end {
+						w.c.Violate("C18", "publish-wrong-end", fmt.Sprintf("the push of key %q moved the end of the log to %d but the notification says %d", x.key, end, nt.Sseq), w.desc)
+					}
+					if nt.CUID != x.owner.cuid || pb.Topic != x.owner.col+"/"+x.key {
+						w.c.Violate("C18", "publish-wrong-address", fmt.Sprintf("notification on topic %q from client %q for a push of client %q on %s/%s", pb.Topic, nt.CUID, x.owner.cuid, x.owner.col, x.key), w.desc)
+					}
+				}
+			}
+		}
 		if stored > 0 && len(pubs) < 1 {
 			w.c.Violate("C18", "missing-publish", fmt.Sprintf("%d operations were stored for key %q but nothing was published", stored, x.key), w.desc)
 		}
@@ -1059,6 +1103,16 @@ func cloneP(p *model.PushPullPack) *model.PushPullPack {
 }
 
 func (w *wworld) local(x *wdt) {
+	if w.kind == "doc" {
+		dc := (&dworld{c: w.c}).rndCall(plainCopy(x.rep.doc.GetValue()))
+		w.localWith(x, callSpec{dc.gal, dc.desc, func(r *replica) (string, error) {
+			if err := dc.run(r.doc); err != nil {
+				return "", err
+			}
+			return "RNil", nil
+		}})
+		return
+	}
 	cw := &world{c: w.c, kind: w.kind}
 	w.localWith(x, cw.rndCall(x.rep))
 }
@@ -1388,7 +1442,7 @@ func sliceWire(c *Ctx, kind string) {
 	c.Res.Rule = "random histories of 2..4 real clients (manual sync) in 1..2 collections on 1..2 keys of one " + kind + " against the real OrdaService over the in-memory store: create / subscribe / subscribe-or-create at arbitrary points, local calls, syncs, mutated raw requests (option bits, DUID, checkpoint, operations, type, key, collection, client)" +
 		map[bool]string{true: ", duplicated requests (second answer only, or both answers applied), dropped responses, responses held back and applied after later exchanges", false: ""}[faults] + "; every request/response/store state/publish is replayed on the model; non-trivial = some exchange both pushed and pulled operations; distinct by script"
 	var cases []string
-	ty := map[string]string{"counter": "ccall", "map": "mcall", "list": "lcall"}[kind]
+	ty := map[string]string{"counter": "ccall", "map": "mcall", "list": "lcall", "doc": "ucall"}[kind]
 	for h := 0; h < n; h++ {
 		w := &wworld{c: c, e: getEnv(), kind: kind}
 		p, msg := guarded(func() {
@@ -1492,5 +1546,5 @@ func sliceWire(c *Ctx, kind string) {
 	if c.DbFaults {
 		name = "WireD_" + kind
 	}
-	c.WriteCases(name, "Base Time Ops Counter Map List Snapshot Datatype Replicas CheckCrdt Server SnapSrv Wire Net CheckWire", "(list (wev "+ty+"))", "check_wire_"+kind, cases, 10)
+	c.WriteCases(name, "Base Time Ops Counter Map List Snapshot Datatype Replicas CheckCrdt Doc CheckDoc Server SnapSrv Wire Net CheckWire CheckWireDoc", "(list (wev "+ty+"))", "check_wire_"+kind, cases, 10)
 }
